@@ -17,7 +17,7 @@ pub fn property() -> Property {
     Property {
         id: "C17",
         level: "exploration",
-        rule: "Real loopback listeners behind a name mapped with the resolver hook H2. Per address one of: ACCEPT (listener that answers a small HTTP response and counts connections/requests), REFUSE (socket bound but not listening), BLACK-HOLE (listen backlog 0 + parked connection: further SYNs are dropped; verified with a probe connect before each use). Address lists with 0..3 entries per family ([::1]:p_i and 127.0.0.1:p_i), both family orders in the resolver output, EVERY assignment of {accept, refuse, black-hole} (<= 3^6 per shape; 3 198 assignments in thorough, a stride in quick) x deadline class {none, already expired, shorter than the race, longer than the race}; plus single-address and IP-literal fast paths, a 'second use' scenario (the address that served the first connection to a name stops answering; the next connection is raced afresh), and connect_timeout boundary values (Duration::MAX, 2^63 ms, one year) on lists that contain an acceptor. Oracle: reference racing order v6[0], v4[0], v6[1], v4[1], ... (resolver order kept inside a family): result Ok <=> some address accepts (and its attempt starts before the deadline); the connection on which the request arrives is at the FIRST acceptor of that order and no other acceptor sees a request; with k black-holes before it success takes at most k x 200 ms + 450 ms (connect_timeout is 10 s; a timing verdict must reproduce three times); all refuse => ConnectionRefused; no acceptor and a black-hole => Err after about connect_timeout (1 s in those cases). Non-trivial: >= 2 addresses; distinct = hash(assignment, order, deadline class).",
+        rule: "Real loopback listeners behind a name mapped with the resolver hook H2. Per address one of: ACCEPT (listener that answers a small HTTP response and counts connections/requests), REFUSE (socket bound but not listening), BLACK-HOLE (listen backlog 0 + parked connection: further SYNs are dropped; verified with a probe connect before each use). Address lists with 0..3 entries per family ([::1]:p_i and 127.0.0.1:p_i), both family orders in the resolver output, EVERY assignment of {accept, refuse, black-hole} (<= 3^6 per shape; 3 198 assignments in thorough, a stride in quick) x deadline class {none, already expired, shorter than the race, longer than the race}; plus single-address and IP-literal fast paths, 'refusal near the deadline' (overall timeout shorter than a race interval, the preferred address refuses, a later one accepts), 'after many abandoned attempts' (5 / 8 earlier connects that each left two attempts pending), a 'second use' scenario (the address that served the first connection to a name stops answering; the next connection is raced afresh), and connect_timeout boundary values (Duration::MAX, 2^63 ms, one year) on lists that contain an acceptor. Oracle: reference racing order v6[0], v4[0], v6[1], v4[1], ... (resolver order kept inside a family): result Ok <=> some address accepts (and its attempt starts before the deadline); the connection on which the request arrives is at the FIRST acceptor of that order and no other acceptor sees a request; with k black-holes before it success takes at most k x 200 ms + 450 ms (connect_timeout is 10 s; a timing verdict must reproduce three times); all refuse => ConnectionRefused; no acceptor and a black-hole => Err after about connect_timeout (1 s in those cases). Non-trivial: >= 2 addresses; distinct = hash(assignment, order, deadline class).",
         assumptions: &["Linux loopback semantics (accept-queue overflow drops SYNs); IPv6 loopback available (otherwise the v6 cases are inconclusive)", "timing classes are 200 ms apart; a case on an overloaded machine is retried"],
         min_nontrivial: |t| t.pick(40, 2_000),
         gens,
@@ -78,6 +78,8 @@ fn gens(tier: Tier) -> Vec<Gen> {
         Gen { name: "matrix", count: tier.pick(96, total), exhaustive: tier == Tier::Thorough, run: run_matrix },
         Gen { name: "fast-paths", count: 12, exhaustive: true, run: run_fast_paths },
         Gen { name: "boundary-connect-timeout", count: (4 * 3 * 2) as u64, exhaustive: true, run: run_boundary_timeout },
+        Gen { name: "refusal-near-deadline", count: 4, exhaustive: true, run: run_refusal_near_deadline },
+        Gen { name: "after-many-abandoned-attempts", count: 2, exhaustive: true, run: run_after_abandoned },
         Gen { name: "second-use", count: 4, exhaustive: true, run: run_second_use },
         Gen { name: "unresponsive", count: 24, exhaustive: true, run: run_unresponsive },
     ]
@@ -352,7 +354,10 @@ fn run_case(behs6: &[Beh], behs4: &[Beh], v4_first: bool, deadline: Deadline, co
     let race_ms = (k as u64) * 200;
     let expect_ok = match (first_acceptor, deadline) {
         (None, _) => Some(false),
-        (Some(_), Deadline::Expired) => Some(false),
+        // (the single-address and IP-literal fast paths do not consult the overall deadline when they
+        //  connect; whether the exchange then still completes before the watchdog cuts it is a race the
+        //  statement says nothing about: not judged)
+        (Some(_), Deadline::Expired) => if single { None } else { Some(false) },
         (Some(_), Deadline::Short) => {
             // the winner's attempt starts k x 200 ms into a 300 ms deadline
             if single || race_ms + 100 <= 300 { Some(true) } else if race_ms >= 400 { Some(false) } else { None }
@@ -360,7 +365,9 @@ fn run_case(behs6: &[Beh], behs4: &[Beh], v4_first: bool, deadline: Deadline, co
         (Some(_), _) => Some(true),
     };
     match expect_ok {
-        Some(true) if !result_ok => out.violation = Some((format!("connect-failed-although-an-address-accepts:{}", if k > 0 { "after-blackhole" } else if order[..first_acceptor.unwrap()].iter().any(|&x| beh_of(x) == Beh::Refuse) { "after-refusal" } else { "first-address" }), descr.clone())),
+        // (with the 300 ms deadline and a black-hole before the winner only 100 ms of slack remain:
+        //  a timing verdict, believed only when it reproduces three times)
+        Some(true) if !result_ok => out.violation = Some((format!("{}connect-failed-although-an-address-accepts:{}", if deadline == Deadline::Short && k > 0 { "timing:" } else { "" }, if k > 0 { "after-blackhole" } else if order[..first_acceptor.unwrap()].iter().any(|&x| beh_of(x) == Beh::Refuse) { "after-refusal" } else { "first-address" }), descr.clone())),
         Some(false) if result_ok => out.violation = Some(("connected-although-no-address-may-succeed".into(), descr.clone())),
         _ => {}
     }
@@ -741,4 +748,127 @@ fn run_second_use(ctx: &mut Ctx, _rng: &mut Rng, index: u64) {
         break;
     }
     ctx.nontrivial(format!("su{index}").as_bytes());
+}
+
+/// less than one race interval of the overall timeout is left, the preferred address refuses at
+/// once, a later one accepts: a refusal starts the next attempt immediately, so the connect succeeds
+fn run_refusal_near_deadline(ctx: &mut Ctx, _rng: &mut Rng, index: u64) {
+    let t_ms = [150u64, 120][(index % 2) as usize];
+    let two_refusals = (index / 2) % 2 == 1;
+    for attempt in 0..3 {
+        if oversleep() > Duration::from_millis(100) {
+            std::thread::sleep(Duration::from_millis(200));
+            if attempt == 2 {
+                ctx.inconclusive("machine too loaded");
+            }
+            continue;
+        }
+        let r6 = match RefusePort::new(true) {
+            Some(p) => p,
+            None => return ctx.inconclusive("could not set up an IPv6 loopback peer"),
+        };
+        let r4 = RefusePort::new(false);
+        let acc = match AcceptListener::spawn(false) {
+            Some(p) => p,
+            None => return ctx.inconclusive("could not set up an IPv4 loopback peer"),
+        };
+        let host = format!("near{}.test", HOST_SEQ.fetch_add(1, Ordering::Relaxed));
+        let mut addrs = vec![r6.addr];
+        if two_refusals {
+            if let Some(r) = &r4 {
+                addrs.push(r.addr);
+            }
+        }
+        addrs.push(acc.addr);
+        set_resolver_override(&host, Some(addrs.clone()));
+        let t0 = Instant::now();
+        let res = attohttpc::get(format!("http://{host}:9/c17")).connect_timeout(Duration::from_secs(10)).read_timeout(Duration::from_secs(5)).timeout(Duration::from_millis(t_ms)).send().map(|r| r.status().as_u16()).map_err(|e| format!("{e:?}"));
+        let elapsed = t0.elapsed();
+        set_resolver_override(&host, None);
+        let descr = format!("addresses {addrs:?} = [refuse{}, accept], overall timeout {t_ms} ms (less than one race interval): {res:?} after {elapsed:?}, the accepting listener saw {} connection(s)", if two_refusals { ", refuse" } else { "" }, acc.connections.load(Ordering::SeqCst));
+        if res != Ok(200) {
+            if attempt < 2 {
+                ctx.count("timing_verdicts_rechecked", 1);
+                continue;
+            }
+            ctx.violation("timing:connect-failed-although-an-address-accepts:refusal-near-deadline", descr);
+        }
+        ctx.count("refusal_near_deadline_cases", 1);
+        break;
+    }
+    ctx.nontrivial(format!("rnd{index}").as_bytes());
+}
+
+/// earlier connects of the same process have left attempts to unresponsive addresses pending
+/// (they are abandoned when a winner is found): a later connect is raced like the first
+fn run_after_abandoned(ctx: &mut Ctx, _rng: &mut Rng, index: u64) {
+    let primings = [5usize, 8][(index % 2) as usize];
+    for attempt in 0..3 {
+        if oversleep() > Duration::from_millis(150) {
+            std::thread::sleep(Duration::from_millis(200));
+            if attempt == 2 {
+                ctx.inconclusive("machine too loaded");
+            }
+            continue;
+        }
+        let mut holes = Vec::new();
+        let mut ok = true;
+        let mut slowest_priming = Duration::ZERO;
+        for i in 0..primings {
+            let (h1, h2) = match (BlackHole::new(true), BlackHole::new(true)) {
+                (Some(a), Some(b)) => (a, b),
+                _ => return ctx.inconclusive("could not set up black-hole peers"),
+            };
+            let acc = match AcceptListener::spawn(false) {
+                Some(p) => p,
+                None => return ctx.inconclusive("could not set up an IPv4 loopback peer"),
+            };
+            let host = format!("prime{}-{i}.test", HOST_SEQ.fetch_add(1, Ordering::Relaxed));
+            set_resolver_override(&host, Some(vec![h1.addr, h2.addr, acc.addr]));
+            let tp = Instant::now();
+            let r = attohttpc::get(format!("http://{host}:9/c17")).connect_timeout(Duration::from_secs(6)).read_timeout(Duration::from_secs(5)).send().map(|r| r.status().as_u16()).map_err(|e| format!("{e:?}"));
+            slowest_priming = slowest_priming.max(tp.elapsed());
+            set_resolver_override(&host, None);
+            ok &= r == Ok(200);
+            holes.push(h1);
+            holes.push(h2);
+        }
+        let hole = match BlackHole::new(true) {
+            Some(a) => a,
+            None => return ctx.inconclusive("could not set up black-hole peers"),
+        };
+        let acc = match AcceptListener::spawn(false) {
+            Some(p) => p,
+            None => return ctx.inconclusive("could not set up an IPv4 loopback peer"),
+        };
+        let host = format!("afterprime{}.test", HOST_SEQ.fetch_add(1, Ordering::Relaxed));
+        set_resolver_override(&host, Some(vec![hole.addr, acc.addr]));
+        let t0 = Instant::now();
+        let res = attohttpc::get(format!("http://{host}:9/c17")).connect_timeout(Duration::from_secs(6)).read_timeout(Duration::from_secs(5)).send().map(|r| r.status().as_u16()).map_err(|e| format!("{e:?}"));
+        let elapsed = t0.elapsed();
+        set_resolver_override(&host, None);
+        // keep the black-holes reserved until every abandoned attempt has given up
+        {
+            let mut yard = GRAVEYARD.lock().unwrap();
+            for h in holes.into_iter().chain(std::iter::once(hole)) {
+                yard.push_back((Instant::now(), h));
+            }
+        }
+        let descr = format!("after {primings} connects to [black-hole, black-hole, accept] that each abandoned two attempts (all ok: {ok}, the slowest took {slowest_priming:?}), a connect to [black-hole, accept]: {res:?} after {elapsed:?}");
+        ctx.max("after_abandoned_elapsed_ms_max", elapsed.as_millis().max(slowest_priming.as_millis()) as u64);
+        // every one of those connects has two black-holes before its winner: 2 x 200 ms + margin
+        let elapsed = if slowest_priming > Duration::from_millis(2 * 200 + 450) { slowest_priming } else { elapsed };
+        if res != Ok(200) || !ok {
+            ctx.violation("after-abandoned:connect-failed-although-an-address-accepts", descr);
+        } else if elapsed > Duration::from_millis(200 + 450) {
+            if attempt < 2 {
+                ctx.count("timing_verdicts_rechecked", 1);
+                continue;
+            }
+            ctx.violation("timing:after-abandoned:unresponsive-address-delays-by-more-than-a-race-interval", descr);
+        }
+        ctx.count("after_abandoned_cases", 1);
+        break;
+    }
+    ctx.nontrivial(format!("aab{index}").as_bytes());
 }
